@@ -341,31 +341,77 @@ def _cross_site(rep, model):
                     if isinstance(f, Func) and f.name == '_interp_kernel_ft':
                         return Opaque('kernel')
                     return FH.on_call(self, interp, f, args, kwargs, node)
-            h = PH()
+            # the transformed axis is axis 1 of a two-dimensional grid: every
+            # per-axis quantity must be read at index 1 (R2c)
+            tracked = {}
+            reads = []
+
+            class PH2(PH):
+                def on_subscript(self, interp, obj, idx):
+                    if id(obj) in tracked:
+                        reads.append((tracked[id(obj)], idx))
+                    return PH.on_subscript(self, interp, obj, idx)
+            h = PH2()
             I = Interp(model, {}, h)
             scope = _Scope(I.env_of(FT))
+            min_pt = SArr([Rat.var('xother'), Rat.var('x0')])
+            stride = SArr([Rat.var('sother'), s])
+            cvecs = [Opaque('xi_other'), Opaque('xi')]
+            tracked.update({id(min_pt): 'real_grid.min_pt',
+                            id(stride): 'real_grid.stride',
+                            id(cvecs): 'recip_grid.coord_vectors'})
             scope.vars.update({
-                'axes': [0], 'shift_list': [shift], 'interp': ['nearest'],
-                'real_grid': Rec('RectGrid', min_pt=SArr([Rat.var('x0')]),
-                                 shape=(N,), stride=SArr([s])),
-                'recip_grid': Rec('RectGrid', coord_vectors=[Opaque('xi')],
-                                  shape=(rshape,)),
+                'axes': [1], 'shift_list': [shift], 'interp': ['nearest'],
+                'real_grid': Rec('RectGrid', min_pt=min_pt,
+                                 shape=(3, N), stride=stride),
+                'recip_grid': Rec('RectGrid', coord_vectors=cvecs,
+                                  shape=(3, rshape)),
                 'imag': Rat.var('imag'), 'op': 'multiply',
                 'onedim_arrs': [], 'out': Rec('arr', dtype=Opaque('dt')),
             })
+            # simple assignments that precede the loop (hoisted look-ups)
+            prelude = []
+            for st in fn.body:
+                if st is loop:
+                    break
+                if isinstance(st, ast.Assign) and all(
+                        isinstance(t, ast.Name) and t.id not in scope.vars
+                        for t in st.targets):
+                    prelude.append(st)
 
             def once(assume):
                 I2 = Interp(model, assume, h)
                 h.linspace[:] = []
+                reads[:] = []
                 sc = _Scope(I2.env_of(FT))
                 sc.vars.update(scope.vars)
                 sc.vars['onedim_arrs'] = []
-                I2.exec_block([loop], sc, Func(fn, I2.env_of(FT), None))
-                return list(h.linspace)
+                fobj = Func(fn, I2.env_of(FT), None)
+                for st in prelude:
+                    try:
+                        I2.exec_block([st], sc, fobj)
+                    except (Undecided, PyRaise):
+                        pass          # about arguments this rule does not model
+                I2.exec_block([loop], sc, fobj)
+                return list(h.linspace), list(reads)
             leaves = explore(once, limit=10)
-            if len(leaves) != 1 or len(leaves[0][1]) != 1:
+            if len(leaves) != 1 or len(leaves[0][1][0]) != 1:
                 raise Undecided('no unique linspace call')
-            fmin, fmax, num = leaves[0][1][0]
+            wrong = sorted({'%s[%r]' % (what, idx)
+                            for what, idx in leaves[0][1][1] if idx != 1})
+            if wrong:
+                rep.violation(
+                    'R2c', 'dft_postprocess_data',
+                    '%s: transforming axis 1 of a 2-d grid reads %s (the '
+                    'quantities of another axis)' % (tag, ', '.join(wrong)),
+                    FT, fn.lineno)
+            elif not leaves[0][1][1]:
+                raise Undecided('no per-axis grid quantity is read')
+            else:
+                rep.holds('R2c', tag, 'per-axis quantities read at the '
+                          'transformed axis only (%d reads)'
+                          % len(leaves[0][1][1]))
+            fmin, fmax, num = leaves[0][1][0][0]
             fmin, fmax = to_rat(fmin), to_rat(fmax)
             want_min = rmin * s / (PI * 2)
             want_max = rmax * s / (PI * 2)
